@@ -9,7 +9,7 @@ from vplib import Case, coq_list
 PROP = "C18"
 LEVEL = "proof"
 IMPORTS = ["Dag.Run"]
-CRATE = "harness_dag"
+CRATE = None  # merged into the main harness crate
 COMMAND = "dag"
 sys.setrecursionlimit(100000)
 LAST_SKIPPED = 0
